@@ -1923,25 +1923,28 @@ func (self *Aof) Reset(aofFileIndex uint32, aofFileOffset uint32) error {
 		self.aofFile = nil
 	}
 
-	appendFiles, rewriteFile, err := self.FindAofFiles()
+	// every log file goes, whatever the set looks like: an interrupted file transfer can leave a
+	// gap in the append file indexes, which FindAofFiles refuses
+	err := filepath.Walk(self.dataDir, func(path string, info os.FileInfo, err error) error {
+		if err != nil {
+			return err
+		}
+		if info.IsDir() {
+			return nil
+		}
+		fileName := info.Name()
+		if !strings.HasPrefix(fileName, "append.aof.") && !strings.HasPrefix(fileName, "rewrite.aof") {
+			return nil
+		}
+		err = os.Remove(path)
+		if err != nil && !os.IsNotExist(err) {
+			self.slock.Log().Errorf("Aof clear files remove %s error %v", fileName, err)
+			return err
+		}
+		return nil
+	})
 	if err != nil {
 		return err
-	}
-	if rewriteFile != "" {
-		err = os.Remove(filepath.Join(self.dataDir, rewriteFile))
-		if err != nil {
-			self.slock.Log().Errorf("Aof clear files remove %s error %v", rewriteFile, err)
-			return err
-		}
-		_ = os.Remove(filepath.Join(self.dataDir, fmt.Sprintf("%s.%s", rewriteFile, "dat")))
-	}
-	for _, appendFile := range appendFiles {
-		err = os.Remove(filepath.Join(self.dataDir, appendFile))
-		if err != nil {
-			self.slock.Log().Errorf("Aof clear files remove %s error %v", appendFile, err)
-			return err
-		}
-		_ = os.Remove(filepath.Join(self.dataDir, fmt.Sprintf("%s.%s", appendFile, "dat")))
 	}
 
 	self.aofFile = NewAofFile(self, filepath.Join(self.dataDir, fmt.Sprintf("%s.%d", "append.aof", aofFileIndex)), os.O_WRONLY, int(Config.AofFileBufferSize))
